@@ -17,6 +17,18 @@ def linear(e):
         return {show(e): 1}
     if k == "mcall" and e["m"] in ("clone", "unwrap", "unwrap_or_default") and not e["a"]:
         return linear(e["r"])
+    # x.saturating_add(y) / wrapping_ / plain: the same linear form wherever the exact value is representable
+    if k == "mcall" and e["m"] in ("saturating_add", "wrapping_add", "saturating_sub", "wrapping_sub") and len(e["a"]) == 1:
+        a, b = linear(e["r"]), linear(e["a"][0])
+        out = dict(a)
+        sign = 1 if e["m"].endswith("add") else -1
+        for v, c in b.items():
+            out[v] = out.get(v, 0) + sign * c
+        return {v: c for v, c in out.items() if c != 0 or v == ""}
+    if k == "mcall" and e["m"] == "unwrap_or" and len(e["a"]) == 1:
+        return {show(e): 1}
+    if k == "paren":
+        return linear(e["e"])
     if k == "un" and e["op"] == "-":
         return {v: -c for v, c in linear(e["e"]).items()}
     if k == "un" and e["op"] == "*":
